@@ -28,7 +28,8 @@ TOKEN = {'Position': 'p', 'NedVelocity': 'v', 'BodyVelocity': 'b'}
 FAULT_KINDS = ['imu_jitter', 'imu_drop', 'imu_stall', 'meas_drop', 'meas_outage',
                'meas_latency', 'meas_snap', 'meas_cluster', 'meas_dup_cross',
                'meas_early', 'meas_late', 'at_start', 'at_end', 'clock_origin',
-               'no_measurements', 'traj_subsample', 'meas_ulp']
+               'no_measurements', 'traj_subsample', 'meas_ulp', 'meas_unsorted',
+               'increments_dropout']
 
 TEMPLATES = ['free', 'free', 'free', 'free', 'free', 'free',
              'last_interval', 'triple_cluster', 'boundary', 'tenhz_default',
@@ -396,6 +397,13 @@ def _generate_once(r, filt, profile):
     max_epochs = 8 if profile == 'sched' else 5
     sensors = _gen_sensors(r, imu, period, enabled, trace, template, max_epochs)
 
+    if 'meas_unsorted' in enabled:
+        cand = [i for i, s_ in enumerate(sensors) if len(s_['stamps']) >= 2]
+        if cand:
+            i = cand[int(r.integers(len(cand)))]
+            # the caller's table is not sorted by time (rows as they arrived)
+            sensors[i]['row_order_seed'] = int(r.integers(2 ** 31))
+            trace.append(dict(kind='meas_unsorted', sensor=i))
     with_altitude = bool(r.random() < 0.5)
     knobs = dict(with_altitude=with_altitude)
     regime = None
@@ -446,6 +454,13 @@ def _generate_once(r, filt, profile):
         sm = model_has_sm(knobs['gyro_model']) or model_has_sm(knobs['accel_model'])
         knobs['increments_given'] = bool(sm or r.random() < 0.6)
         knobs['nominal'] = ['computed', 'reference'][int(r.integers(2))]
+        if 'increments_dropout' in enabled and knobs['increments_given'] and len(imu) > 8:
+            # the increments table handed to the filter has lost a run of rows (IMU log
+            # dropout) although the trajectory covers the interval
+            at = int(r.integers(1, len(imu) - 5))
+            k = int(r.integers(1, 5))
+            knobs['increments_dropout'] = list(range(at, at + k))
+            trace.append(dict(kind='increments_dropout', at=at, k=k))
     sc = dict(format=1, kind='filter', filter=filt, profile=profile, template=template,
               world=wd, imu=dict(type=imu_type, stamps=[float(x) for x in imu]),
               sensors=sensors, faults=trace, knobs=knobs)
@@ -482,6 +497,10 @@ def materialise(sc, fence_only=False, fresh_spies=True):
     for s in sc['sensors']:
         data = W.aiding_samples(s['cls'], reference, wd, s['stamps'], s['sd'], s['lever'],
                                 s['noise_seed'], scale=scale)
+        if s.get('row_order_seed') is not None and len(data) > 1:
+            perm = np.random.Generator(np.random.PCG64(int(s['row_order_seed']))) \
+                .permutation(len(data))
+            data = data.iloc[perm]
         form = s.get('table_form')
         if form == 'reversed':
             data = data[list(data.columns[::-1])]
@@ -512,6 +531,8 @@ def materialise(sc, fence_only=False, fresh_spies=True):
         computed = computed.iloc[::k]
         ref = reference.iloc[::k]
         out['computed'] = computed
+        drop = [i for i in kn.get('increments_dropout') or [] if 0 <= i < len(inc)]
+        out['increments_passed'] = inc.drop(inc.index[drop]) if drop else inc
         out['nominal'] = computed if kn.get('nominal') == 'computed' else ref
         out['t_start'] = float(computed.index[0])
         out['t_end'] = float(computed.index[-1])
@@ -597,7 +618,7 @@ def run_prefix(sc, m, kw):
             else:
                 h = max(3, len(m['computed']) // 2)
                 if kn.get('increments_given', True):
-                    kw['increments'] = m['increments']
+                    kw['increments'] = m['increments_passed']
                 filters.run_feedforward_filter(m['nominal'].iloc[:h], m['computed'].iloc[:h],
                                                *sig, **kw)
     except Exception:
@@ -623,7 +644,7 @@ def run_filter(sc, m, budget=None, reuse=None):
                     m['initial'], sig[0], sig[1], sig[2], sig[3], m['increments'], **kw)
             else:
                 if kn.get('increments_given', True):
-                    kw['increments'] = m['increments']
+                    kw['increments'] = m['increments_passed']
                 out.result = filters.run_feedforward_filter(
                     m['nominal'], m['computed'], sig[0], sig[1], sig[2], sig[3], **kw)
         except StepBudgetExceeded as e:
@@ -789,6 +810,10 @@ def probes(sc, m, outcome=None):
     if any((t not in rowset_) and (np.nextafter(t, np.inf) in rowset_ or
                                    np.nextafter(t, -np.inf) in rowset_) for t in merged):
         hit['stamp_one_ulp_from_epoch'] = 1
+    if any(s_.get('row_order_seed') is not None for s_ in sc['sensors']):
+        hit['measurement_table_not_sorted_by_time'] = 1
+    if sc['knobs'].get('increments_dropout'):
+        hit['interval_without_increment_rows'] = 1
     if abs(a) >= 1e5:
         hit['gps_week_scale_clock'] = 1
     if a < 0:
